@@ -11,8 +11,10 @@ package main
 //                   model quadkey_to_tilexy / tilexy_to_quadkey / parse_int64 / parse_uint64 / float
 //                   predicates vs internal/bing, strconv and Go's float comparisons
 //   oracle          (no model) the object cmdSearchArgs built = the object TEST built from the same
-//                   tokens; both refuse => same error text; the accepted search object is not nil;
-//                   CLIP is never accepted with GET; no parser panics.
+//                   tokens; both refuse => same error text; the accepted search object is not nil
+//                   (regression of C02-within-geo-nil, fixed in /repo 1d3bf59); CLIP is never accepted
+//                   with GET (regression of C02-clip-get-clipby, fixed in /repo 7096363); no parser
+//                   panics or hangs.
 //
 // The model's oracles (strings.ToLower, strconv.ParseFloat, geojson.Parse of OBJECT and of the sector
 // polygon, the keyspace lookup of GET) are computed here by calling the library directly and sent with
@@ -443,8 +445,8 @@ func (a *areaRun) crossCase(c areaCase, s verifapi.SearchAreaResult, t tailResul
 				map[string]interface{}{"search": ds, "test": dt})
 		}
 	case sOK && !tOK:
-		// only the search side knows MVT, GEO and CLIPBY; a signed tile level is read by Atoi only
-		if w == "MVT" || w == "GEO" || clipby || expr || signedZ {
+		// only the search side knows MVT and CLIPBY; a signed tile level is read by Atoi only
+		if w == "MVT" || clipby || expr || signedZ {
 			return
 		}
 		a.oracle("area-search-only-"+w, "WITHIN/INTERSECTS accept area tokens that TEST refuses", c,
@@ -679,10 +681,13 @@ func (a *areaRun) damage(t []string) []string {
 }
 
 var areaCorpus = []areaCase{
+	// regression cases of the two repaired findings: refused by the code and by the model
 	{Class: "corpus", Cmd: "within", Toks: []string{"GEO"}},
 	{Class: "corpus", Cmd: "intersects", Toks: []string{"geo", "CLIPBY", "BOUNDS", "0", "0", "1", "1"}},
+	{Class: "corpus", Cmd: "within", Fence: true, Toks: []string{"Geo"}},
 	{Class: "corpus", Cmd: "intersects", Clip: true, Toks: []string{"GET", "fleet", "a"}},
 	{Class: "corpus", Cmd: "intersects", Clip: true, Toks: []string{"GET", "fleet", "a", "CLIPBY", "BOUNDS", "-90", "-180", "90", "180"}},
+	{Class: "corpus", Cmd: "within", Clip: true, Toks: []string{"get", "fleet", "b", "clipby", "QUADKEY", "0", "CLIPBY", "HASH", "9"}},
 	{Class: "corpus", Cmd: "within", Toks: []string{"TILE", "0", "0", "+1"}},
 	{Class: "corpus", Cmd: "within", Toks: []string{"TILE", "-1", "0", "5"}},
 	{Class: "corpus", Cmd: "within", Toks: []string{"TILE", "0", "0", "24"}},
@@ -944,7 +949,7 @@ func areas(r *hx.Result, cfg hx.Config) {
 		t := a.tailCase(c, isect, a.rng.Intn(25) == 0 && c.Class != "corpus")
 		a.parseCase(c, c.Clip)
 		if c.Clip && s.Err == "" && s.Panic == "" && firstWord(c.Toks) == "GET" {
-			a.oracle("search-clip-get-accepted", "CLIP is refused with GET (\"cannot clip with get\") unless a CLIPBY follows: the GET arm sets the error and does not return", c,
+			a.oracle("search-clip-get-accepted", "CLIP was accepted together with GET (\"cannot clip with get\" must be returned whatever follows the area)", c,
 				map[string]interface{}{"obj": verifapi.AreaDescribe(s.Obj)})
 		}
 		accepted := s.Err == "" || t.err == ""
